@@ -90,6 +90,14 @@ func genC08(seed uint64, tier string) *Case {
 		// between the copies, a late query from the far edge of the node's query window
 		// (window size drawn per case): 1..3 = one below / at / one above (newest - window)
 		s.I = g.Intn(4)
+		if g.Bool(0.12) {
+			s.U = 1 // the datagram send fails while this query is handled (its ack cannot leave)
+		}
+		if g.Bool(0.25) {
+			// afterwards, another query at the same Lamport time that carries the id of the
+			// query one window earlier (ids are only unique per Lamport time)
+			s.X = []int{1}
+		}
 		c.Steps = append(c.Steps, s)
 	}
 	return c
@@ -131,6 +139,7 @@ func execC08(r *Run) {
 	origin := c.Nodes[1]
 	me := c.Nodes[0].Name
 	lt := uint64(10)
+	idAt := map[uint64]uint32{} // id of the query under test at each Lamport time
 	for idx, s := range r.C.Steps {
 		r.curStep = idx
 		if s.Op != "q" {
@@ -193,6 +202,11 @@ func execC08(r *Run) {
 		msg := wEnc(mtQuery, &wQuery{LTime: lt, ID: id, Addr: net.ParseIP(origin.IP).To4(), Port: uint16(origin.Port), SourceNode: origin.Name,
 			Filters: filters, Flags: flags, Timeout: 5 * time.Second, Name: s.S, Payload: []byte("p")})
 		delivered, acks, queued := 0, 0, 0
+		sendFails := s.U == 1
+		if sendFails {
+			c.Nodes[0].Tr.WriteErr = func(to string) error { return fmt.Errorf("sendto %s: network is unreachable", to) }
+			r.Fault("datagram-send-fails")
+		}
 		for copyN := 0; copyN < s.J; copyN++ {
 			if copyN > 0 {
 				r.Fault("duplicate")
@@ -240,6 +254,23 @@ func execC08(r *Run) {
 				}
 			}
 		}
+		c.Nodes[0].Tr.WriteErr = nil
+		idAt[lt] = id
+		if old, ok := idAt[lt-uint64(qbuf)]; ok && len(s.X) > 0 && lt >= uint64(qbuf) {
+			c.DeliverMsg(&Msg{To: 0, Buf: wEnc(mtQuery, &wQuery{LTime: lt, ID: old, Addr: net.ParseIP(origin.IP).To4(), Port: uint16(origin.Port), SourceNode: origin.Name,
+				Flags: qfNoBroadcast, Timeout: 5 * time.Second, Name: "twin", Payload: []byte("t")})})
+			got := 0
+			for _, e := range c.Drain(0) {
+				if q, ok := e.(*serf.Query); ok && q.Name == "twin" {
+					got++
+				}
+			}
+			c.Bag = nil
+			r.Fault("same-id-one-window-later")
+			if got != 1 {
+				r.Fail("query-delivery-mismatch", "C08 delivery-id-reuse", "a never-seen query at Lamport time %d whose id %d had been used by the query at time %d (one window of %d earlier) was delivered %d times, expected once", lt, old, lt-uint64(qbuf), qbuf, got)
+			}
+		}
 		r.NonTrivial = true
 		r.Logf("query %q filters=%q ack=%v nobroadcast=%v want=%v -> delivered=%d acks=%d queued=%d", s.S, s.T, s.F, s.K == 1, want, delivered, acks, queued)
 		wantDeliver := 0
@@ -250,7 +281,7 @@ func execC08(r *Run) {
 			r.Fail("query-delivery-mismatch", "C08 delivery", "query %q filters=%q on node %s tags=%v: delivered %d times to the application, expected %d (filters select the node: %v, internal name: %v, copies received: %d)", s.S, s.T, me, tags, delivered, wantDeliver, want, internal, s.J)
 		}
 		wantAcks := 0
-		if want && s.F {
+		if want && s.F && !sendFails {
 			wantAcks = 1
 		}
 		if acks != wantAcks {
